@@ -40,7 +40,9 @@ func ruleStreamCallbackDeregisters(c *Ctx, rule string) {
 	}
 	// the closure handed to AddCallback
 	n := 0
-	for _, ci := range callsIn(sc, func(ci ssa.CallInstruction) bool { return ci.Common().IsInvoke() && ci.Common().Method.Name() == "AddCallback" }) {
+	for _, ci := range callsIn(sc, func(ci ssa.CallInstruction) bool {
+		return ci.Common().IsInvoke() && ci.Common().Method.Name() == "AddCallback"
+	}) {
 		for _, cb := range funcValuesOf(ci.Common().Args[1]) {
 			n++
 			id := ci.Common().Args[0]
@@ -79,7 +81,7 @@ func ruleStreamCallbackDeregisters(c *Ctx, rule string) {
 				for blk := range reachableFrom(failBlk, nil) {
 					for _, in := range blk.Instrs {
 						if rc, okc := in.(*ssa.Call); okc && rc.Common().IsInvoke() && rc.Common().Method.Name() == "RemoveCallback" {
-							if strings.TrimPrefix(pathOf(rc.Common().Args[0]), "^") == strings.TrimPrefix(pathOf(id), "^") || sameFreeVar(rc.Common().Args[0], id, cb, sc) {
+							if strings.TrimPrefix(pathOf(rc.Common().Args[0]), "^") == strings.TrimPrefix(pathOf(id), "^") || sameFreeVar(rc.Common().Args[0], id, cb, sc) || canonValue(rc.Common().Args[0]) == canonValue(id) {
 								if blk == failBlk || blk.Dominates(blk) {
 									rem = true
 								}
@@ -147,7 +149,9 @@ func ruleCacheIsolation(c *Ctx, rule string) {
 	}
 	// flushIndex calls use that index
 	n := 0
-	for _, ci := range callsIn(gc, func(ci ssa.CallInstruction) bool { return strings.HasSuffix(calleeName(ci), "beacon.roundCache).flushIndex") }) {
+	for _, ci := range callsIn(gc, func(ci ssa.CallInstruction) bool {
+		return strings.HasSuffix(calleeName(ci), "beacon.roundCache).flushIndex")
+	}) {
 		n++
 		c.Ok(rule, "eviction removes only the flooding signer's partial", shortPos(c.P, ci), stripConv(ci.Common().Args[1]) == idx, "flushIndex("+pathOf(ci.Common().Args[1])+")")
 		// the evicted round is the oldest entry recorded for that same signer, and it exists
@@ -303,7 +307,9 @@ func ruleCacheWindow(c *Ctx, rule string) {
 		if isControlFn(fn) || fnPkgPath(fn) != pkBeacon {
 			continue
 		}
-		for _, ci := range callsIn(fn, func(ci ssa.CallInstruction) bool { return strings.HasSuffix(calleeName(ci), "beacon.partialCache).Append") }) {
+		for _, ci := range callsIn(fn, func(ci ssa.CallInstruction) bool {
+			return strings.HasSuffix(calleeName(ci), "beacon.partialCache).Append")
+		}) {
 			agg, app = fn, ci.(*ssa.Call)
 		}
 	}
@@ -369,7 +375,9 @@ func ruleStreamCap(c *Ctx, rule string) {
 		n++
 		ok := false
 		detail := "no grpc.MaxConcurrentStreams option"
-		for _, ci := range callsIn(fn, func(ci ssa.CallInstruction) bool { return calleeName(ci) == "google.golang.org/grpc.MaxConcurrentStreams" }) {
+		for _, ci := range callsIn(fn, func(ci ssa.CallInstruction) bool {
+			return calleeName(ci) == "google.golang.org/grpc.MaxConcurrentStreams"
+		}) {
 			k, isK := constInt(ci.Common().Args[0])
 			flows := false
 			if v, isV := ci.(ssa.Value); isV {
